@@ -1,4 +1,5 @@
 import RbV.Ref.EditDist
+import RbV.Lemmas.UkkonenEq
 /-!
 # C09 — approximate matchers and distance functions equal the edit-distance definition
 
@@ -158,7 +159,17 @@ theorem hamming_count (a b : List Nat) (d : Nat) (h : hamming a b = some d) :
         · have hb : (x != y) = true := by simp [hxy]
           simp only [hxy, if_false, hb, if_true, List.length_cons] at h ⊢; omega
 
+/-- **[B] Ukkonen**: the mirror model of `ukkonen.rs` (two alternating buffers, only cells `0..=lastk` of a column
+are written, `lastk` grows by at most one per text symbol and is cut back while the cell exceeds `k`, a pair is
+reported when `lastk = m`) reports exactly the expected pairs — for every cost function (insertion/deletion 1),
+pattern, text and `k`.  The invariant (`Model.Ukkonen.Inv`): cells up to `lastk` are exact, the true values above
+`lastk` exceed `k`, and anything a buffer still holds above `lastk` is at least `k`. -/
+theorem ukkonen_eq (w : Nat → Nat → Nat) (p t : List Nat) (k : Nat) :
+    RbV.Model.Ukkonen.findAllEnd w p t k = hits w p t k :=
+  RbV.Model.Ukkonen.findAllEnd_eq_hits w p t k
+
 -- non-vacuity: concrete instances
+example : RbV.Model.Ukkonen.findAllEnd (unitW eqSym) [1, 2, 1] [1, 2, 1, 3, 1, 1] 1 = [(1, 1), (2, 0), (3, 1), (4, 1), (5, 1)] := by decide
 example : ed (unitW eqSym) [1, 2, 3] [1, 3] = 1 := by rw [← edFast_eq]; decide
 example : lastRow (unitW eqSym) [1, 2, 1] [1, 2, 1, 3, 1, 1] = [2, 1, 0, 1, 1, 1] := by decide
 example : hits (unitW eqSym) [1, 2, 1] [1, 2, 1, 3, 1, 1] 0 = [(2, 0)] := by decide
